@@ -265,4 +265,40 @@ theorem laneSet_generated (b i v : Nat) (hb : b < 256) : laneSet b i v = Gen.set
   rw [hv]
   exact laneSet_tab b hb (i % 4) (Nat.mod_lt _ (by decide)) (v % 4) (Nat.mod_lt _ (by decide))
 
+/-! ### T16 -/
+
+theorem printResponseTest_generated (D : Desc) (s : St) (f : Fsm) :
+    printResponseTest D s f = Gen.print_response_test D s f := by
+  unfold printResponseTest Gen.print_response_test
+  simp only []
+  generalize s.chkUb (s.cmdOf f).isSome = s1
+  generalize D.cmdD (s1.cmdOf f) = c
+  cases hd : c.desc with
+  | none => cases f <;> simp [setStateTL] <;> (repeat' split) <;> simp_all
+  | some d =>
+    simp only [Option.isSome_some, if_true, Option.getD_some]
+    rcases hr1 : printN D s1 f (nlStr s1) with ⟨s2, ok1⟩
+    cases ok1
+    · simp [printAll, hr1]
+    · rcases hr2 : printN D s2 f d with ⟨s3, ok2⟩
+      have hpa : printAll D s1 f [nlStr s1, d] = (s3, ok2) := by
+        cases ok2 <;> simp [printAll, hr1, hr2]
+      cases ok2
+      · simp [hpa]
+      · cases f <;> simp [hpa, setStateTL] <;> (repeat' split) <;> simp_all
+
+theorem nextFormatVar_generated (D : Desc) (s : St) (f : Fsm) (h : (s.cmdOf f).isSome = true) :
+    nextFormatVar D s f = Gen.next_format_var_by_fsm D s f := by
+  unfold nextFormatVar Gen.next_format_var_by_fsm
+  simp only [St.chkUb, h, if_true]
+  cases f
+  · simp only [St.setIdx, St.idx, St.pos, St.setPos, Desc.capOf, St.cmdOf]
+    by_cases h1 : s.index + 1 < (D.cmdD s.cmd).varNum
+    · by_cases h2 : s.position ≥ D.cmdCap <;> simp [h1, h2]
+    · simp [h1]
+  · simp only [St.setIdx, St.idx, St.pos, St.setPos, Desc.capOf, St.cmdOf]
+    by_cases h1 : s.uindex + 1 < (D.cmdD s.ucmd).varNum
+    · by_cases h2 : s.uposition ≥ D.unsCap <;> simp [h1, h2]
+    · simp [h1]
+
 end Cat
